@@ -141,12 +141,16 @@ func (s *Sched) FreeRun() {
 
 var gHeader = regexp.MustCompile(`(?m)^goroutine (\d+) \[([^\],]+)`)
 
+// waitingState: the goroutine cannot continue unless another goroutine acts. Only the states of the
+// blocking primitives the resolver uses count; anything else (running, runnable, syscall, GC assist,
+// ...) is treated as "may still progress".
 func waitingState(st string) bool {
 	switch st {
-	case "running", "runnable", "syscall", "sleep", "copystack", "preempted", "waiting", "dead", "idle":
-		return false
+	case "chan receive", "chan send", "select", "semacquire", "sync.Mutex.Lock", "sync.RWMutex.RLock", "sync.RWMutex.Lock",
+		"sync.WaitGroup.Wait", "sync.Cond.Wait", "IO wait", "chan receive (nil chan)", "chan send (nil chan)", "select (no cases)":
+		return true
 	}
-	return true
+	return false
 }
 
 // WaitQuiescent returns when no goroutine other than the caller can make progress on its own.
@@ -173,24 +177,24 @@ func (s *Sched) WaitQuiescent() bool {
 			}
 		}
 		if quiet {
+			anyRunning := false
 			s.mu.Lock()
 			for _, a := range s.actors {
-				if a.state == stRunning || a.state == stBlocked {
-					if _, alive := states[a.gid]; alive {
-						a.state = stBlocked
-					} else if a.state == stRunning {
-						// goroutine gone without Finish (an internal goroutine of the library that ended)
-						a.state = stFinished
-						delete(s.byGid, a.gid)
-					} else {
-						a.state = stFinished
-						delete(s.byGid, a.gid)
-					}
+				if a.state == stRunning {
+					anyRunning = true
 				}
 			}
 			s.mu.Unlock()
 			stable++
-			if stable >= 2 {
+			need := 2
+			if anyRunning {
+				// an actor that is neither parked nor finished looks blocked: a semaphore wait can be
+				// transient (runtime internals, GC), so insist on a longer stable period
+				need = 6
+				time.Sleep(40 * time.Microsecond)
+			}
+			if stable >= need {
+				s.markBlocked(states)
 				return true
 			}
 			continue
@@ -200,6 +204,23 @@ func (s *Sched) WaitQuiescent() bool {
 			return false
 		}
 		runtime.Gosched()
+	}
+}
+
+// markBlocked classifies the actors that are neither parked nor finished once the process is quiescent.
+func (s *Sched) markBlocked(states map[int64]string) {
+	s.mu.Lock()
+	defer s.mu.Unlock()
+	for _, a := range s.actors {
+		if a.state == stRunning || a.state == stBlocked {
+			if _, alive := states[a.gid]; alive {
+				a.state = stBlocked
+			} else {
+				// goroutine gone without Finish (an internal goroutine of the library that ended)
+				a.state = stFinished
+				delete(s.byGid, a.gid)
+			}
+		}
 	}
 }
 
